@@ -39,6 +39,25 @@ def draw_tz(draw, case):
     return case
 
 
+class workdir:
+    """Scratch directory for the files of one case.  Unlike tempfile.TemporaryDirectory its path is the SAME for every case of a
+    process (/tmp/verif_work_<pid>): file names recur from case to case with different contents, as a user's 'forecast.csv'
+    does, so anything the library remembers per file name shows up.  Emptied on entry and removed on exit."""
+
+    def __enter__(self):
+        import shutil
+        import tempfile
+        self.path = os.path.join(tempfile.gettempdir(), "verif_work_%d" % os.getpid())
+        shutil.rmtree(self.path, ignore_errors=True)
+        os.makedirs(self.path)
+        return self.path
+
+    def __exit__(self, *exc):
+        import shutil
+        shutil.rmtree(self.path, ignore_errors=True)
+        return False
+
+
 ABORTED = [None]   # set by the wall-clock guard: every further check fails fast with a HarnessError
 
 
